@@ -6,8 +6,20 @@ props = [json.loads(l)['id'] for l in open(os.path.join(V, 'properties.jsonl'))]
 TRUST = ('TLC evaluates the specification correctly; the BigZ Java accelerators equal their TLA+ definitions (L0Equiv + pure-mode re-validation); '
          'the recorder reports library state faithfully; exhaustiveness is over small limb bases/sizes (R2) and enumerated shapes (R3), 64-bit contents are witnesses and samples')
 CHECKS = {
- 'C03': ('model_checking', 'TLA+ model MpzAors (aors.h over a block store; TLC exhaustive) + trace validation of mpn/mpz add/sub/neg/shift/copy against MPIR.tla',
-         'Exhaustive small-base model of the mpz add/sub case analysis with memory and aliasing; every recorded call of the real kernels (all lengths mod unrolling, carry chains, shift counts, overlaps, sign combinations) is validated by TLC against the abstract machine', '4 C03'),
+ 'C01': ('model_checking', 'TLA+ models MulDispatch (size dispatch with the tree\'s thresholds: callee domains; fallback loop and chunked basecase at limb base 2) and FFTParams (parameter search: no coefficient wrap), TLC exhaustive; products of the real library at every boundary shape / every (depth,w) validated against MPIR.tla', 'exhaustive dispatch/parameter models with the constants of the tree under test + trace validation of real products (all-ones, single-bit, runs, same-object operands)', '4 C01'),
+ 'C02': ('model_checking', 'TLA+ models UdivPreinv (3/2 quotient step, all inputs at 3..5-bit words) and SbDivQr (schoolbook loop at limb base 4/8), TLC exhaustive; divisions of the real library (every crossover, inverse-constructed contents, all mpz rounding families) validated against MPIR.tla', 'exhaustive small-word models of the quotient-digit machinery + trace validation of n = q*d + r with the documented rounding', '4 C02'),
+ 'C03': ('model_checking', 'TLA+ model MpzAors (aors.h over a block store; TLC exhaustive) + trace validation of mpn/mpz add/sub/neg/shift/copy against MPIR.tla', 'exhaustive small-base model of the mpz add/sub case analysis with memory and aliasing; every recorded call of the real kernels (all lengths mod unrolling, carry chains, shift counts, overlaps, sign combinations, alias partitions) validated by TLC', '4 C03'),
+ 'C04': ('model_checking', 'abstract machine MPIR.tla: allocator contract as enabledness, well-formedness, ownership and leak accounting checked by TLC on recorded random call histories (recording allocator installed with mp_set_memory_functions) + block-store models MpzAors/MpzLogic', 'histories of public calls with realloc2/clear/swap between calls are validated event by event: free/realloc only with the exact current size, no surviving temporary, objects well formed after every call, values independent of allocation', '4 C04'),
+ 'C05': ('model_checking', 'alias-partition enumeration from the API table replayed on the real library and validated against MPIR.tla (expected result computed from the specification\'s own pre-state; non-outputs unchanged) + store-order models MpzAors/MpzLogic', 'every permitted partition of the mpz arguments of every function x size classes x exact/generous allocation', '4 C05'),
+ 'C06': ('model_checking', 'TLA+ RadixText (text format round trip in all 96 bases; number grammar on every short string, replayed into the parsers) + trace validation of get_str/set_str/sizeinbase/mpn conversions against BigZ digits', 'text-format model with grammar enumeration as test generator + validation of conversions at every crossover', '4 C06'),
+ 'C07': ('model_checking', 'TLA+ GcdContract (gcdext contract has exactly one solution; Kronecker oracle = definition) + trace validation of gcd/gcdext/lcm/invert/jacobi/kronecker against Euclid and the contract predicate', 'contract model + traces over Lehmer/HGCD/sub-quadratic sizes with Fibonacci, prescribed-quotient, common-factor and special-case operands', '4 C07'),
+ 'C08': ('model_checking', 'TLA+ PowmEven (case analysis of mpz_powm at a 2-bit limb, TLC exhaustive) + trace validation of powm/powm_ui/pow_ui/ui_pow_ui against modular exponentiation', 'case-analysis model + traces over modulus classes (odd, 2-adic valuations, powers of two, +-1), window-boundary exponents, base classes, negative exponents', '4 C08'),
+ 'C09': ('model_checking', 'TLA+ RootContract (root/perfect-power predicates = brute force) + trace validation of sqrt/root/rootrem/perfect_* and mpn_sqrtrem with exact root predicates', 'contract model + traces on k^n, k^n +- 1 families', '4 C09'),
+ 'C10': ('model_checking', 'TLA+ model MpzLogic (mpz_and over a block store, all sign paths and alias patterns; TLC exhaustive) + trace validation of all bit functions against infinite two\'s-complement definitions', 'exhaustive small-base model + traces with negatives having low zero limbs, -1, -2^k, indices below/at/above the length', '4 C10'),
+ 'C11': ('model_checking', 'TLA+ FitsGet (fits/get/cmp_si transcribed with type widths as constants) + trace validation of every compare/convert function at every C type boundary with doubles as exact dyadics', 'type-width model + traces at +-(2^b + d) for all boundaries, 42 doubles incl. subnormals/2^53/inf', '4 C11'),
+ 'C12': ('model_checking', 'TLA+ MpqOps (mpq_mul/add/sub store sequences under all alias patterns: exact and canonical; TLC exhaustive) + trace validation requiring canonical exact results', 'store-sequence model + traces with prescribed common factors for every gcd branch', '4 C12'),
+ 'C13': ('model_checking', 'TLA+ MpfContract (accuracy predicates vs brute force) + trace validation evaluating |result - exact| < 2^(2-p)|exact|, the exactness clause and the mpf format rules exactly on dyadic rationals', 'exact evaluation of the property\'s inequality on every recorded float operation (independent precisions, all exponent differences, cancellation, aliasing, set_prec histories)', '4 C13'),
+ 'C16': ('model_checking', 'TLA+ BinDispatch (mpz_bin_uiui algorithm selection: table limits sound and tight; boundary pairs replayed) + trace validation against combinatorial definitions and deterministic Miller-Rabin', 'dispatch/table model + dense argument sweeps, pseudoprime families, prime gaps', '4 C16'),
 }
 NA_REASON = 'check not built yet (work in progress; see DESIGN.md section 7)'
 hooks_commits = []
